@@ -1,6 +1,7 @@
 package ast
 
 import (
+	"log"
 	"strconv"
 	"strings"
 )
@@ -509,6 +510,12 @@ type ImmExp struct {
 }
 
 func (imm *ImmExp) expressionNode() {}
+
+// EQU 展開の入れ子の深さ (ImmExp.Eval が管理する) とその上限
+var macroExpandDepth int
+
+const maxMacroExpandDepth = 100
+
 func (imm *ImmExp) Eval(env Env) (Exp, bool) {
 	switch f := imm.Factor.(type) {
 	case *NumberFactor:
@@ -547,6 +554,13 @@ func (imm *ImmExp) Eval(env Env) (Exp, bool) {
 		// '$' でない場合は、マクロをチェックします
 		macroExp, ok := env.LookupMacro(identValue)
 		if ok {
+			// 自分自身 (または相互) を参照する EQU は無限に展開されてしまう: 深さで打ち切って診断する
+			if macroExpandDepth >= maxMacroExpandDepth {
+				log.Printf("error: EQU '%s' is defined in terms of itself (expansion deeper than %d)", identValue, maxMacroExpandDepth)
+				return imm, false
+			}
+			macroExpandDepth++
+			defer func() { macroExpandDepth-- }()
 			// マクロ定義を再帰的に評価します
 			// マクロ自体が評価されることを確認します
 			evalMacroExp, reduced := macroExp.Eval(env)
